@@ -28,6 +28,8 @@ func init() {
 	reg(propC06)
 	reg(propC07)
 	reg(propC10)
+	reg(propC11)
+	reg(propC12)
 	reg(propC14)
 	reg(propC15Dec)
 	reg(propC15Grammar)
